@@ -1,0 +1,84 @@
+//go:build verif
+
+// Thin exports for the verification harness (/verif/harness/cmd/node). Add-only, compiled only with
+// -tags verif. No logic: constructors and accessors for unexported entry points.
+package server
+
+import (
+	"context"
+	"log/slog"
+
+	"github.com/oxia-db/oxia/proto"
+	"github.com/oxia-db/oxia/server/wal"
+)
+
+// VerifInternalRpc gives access to the request routing of internalRpcServer (which controller an
+// internal RPC reaches) without starting a gRPC server.
+type VerifInternalRpc struct {
+	s *internalRpcServer
+}
+
+func NewVerifInternalRpc(sd ShardsDirector) *VerifInternalRpc {
+	return &VerifInternalRpc{s: &internalRpcServer{
+		shardsDirector: sd,
+		log:            slog.With(slog.String("component", "internal-rpc-server")),
+	}}
+}
+
+func (v *VerifInternalRpc) NewTerm(ctx context.Context, req *proto.NewTermRequest) (*proto.NewTermResponse, error) {
+	return v.s.NewTerm(ctx, req)
+}
+
+func (v *VerifInternalRpc) BecomeLeader(ctx context.Context, req *proto.BecomeLeaderRequest) (*proto.BecomeLeaderResponse, error) {
+	return v.s.BecomeLeader(ctx, req)
+}
+
+func (v *VerifInternalRpc) Truncate(ctx context.Context, req *proto.TruncateRequest) (*proto.TruncateResponse, error) {
+	return v.s.Truncate(ctx, req)
+}
+
+func (v *VerifInternalRpc) Replicate(srv proto.OxiaLogReplication_ReplicateServer) error {
+	return v.s.Replicate(srv)
+}
+
+func (v *VerifInternalRpc) SendSnapshot(srv proto.OxiaLogReplication_SendSnapshotServer) error {
+	return v.s.SendSnapshot(srv)
+}
+
+func (v *VerifInternalRpc) GetStatus(ctx context.Context, req *proto.GetStatusRequest) (*proto.GetStatusResponse, error) {
+	return v.s.GetStatus(ctx, req)
+}
+
+// VerifFollowerAppend is followerController.append: what handleServerStream does with one received request.
+func VerifFollowerAppend(f FollowerController, req *proto.Append, stream proto.OxiaLogReplication_ReplicateServer) error {
+	return f.(*followerController).append(req, stream)
+}
+
+// VerifFollowerCloseStream is followerController.closeStream: what handleServerStream does when Recv or append fails.
+func VerifFollowerCloseStream(f FollowerController, err error) {
+	f.(*followerController).closeStream(err)
+}
+
+// VerifLeaderLockFree tells whether the leader controller's mutex is free right now.
+func VerifLeaderLockFree(l LeaderController) bool {
+	lc := l.(*leaderController)
+	if lc.TryLock() {
+		lc.Unlock()
+		return true
+	}
+	return false
+}
+
+// VerifTruncateDecision runs leaderController.truncateFollowerIfNeeded for a leader whose WAL is w and whose
+// election head is leaderHead; the Truncate RPC, if any, goes to rpcClient.
+func VerifTruncateDecision(w wal.Wal, rpcClient ReplicationRpcProvider, term int64, leaderHead *proto.EntryId,
+	follower string, followerHead *proto.EntryId) (*proto.EntryId, error) {
+	lc := &leaderController{
+		wal:                       w,
+		rpcClient:                 rpcClient,
+		term:                      term,
+		leaderElectionHeadEntryId: leaderHead,
+		log:                       slog.With(slog.String("component", "leader-controller")),
+	}
+	return lc.truncateFollowerIfNeeded(follower, followerHead)
+}
